@@ -125,7 +125,17 @@ def check_split(rep, prog):
               where, "_format_ilog_data / _format_trace_data", "regions are not emitted ILOG first, then traces in order")
     # ---- each formatter gets (its slice, the shared line list, the right definition file)
     lines = il[0].data[1][1]
-    rep.check(il[0].data[1][2] == hf and tr[0].data[1][2] == sf and tr[0].data[1][1] == lines and r == lines, "C17.R3.region-decoders",
+
+    def returns_lines(t, conds):
+        if isinstance(t, Ite):
+            return returns_lines(t.a, conds + [t.c]) and returns_lines(t.b, conds + [not_(t.c)])
+        if t == lines:
+            return True
+        # the early exit for an empty dump may return its own (empty) list
+        o_ = I.heap.get(t.oid) if isinstance(t, Ref) else None
+        return isinstance(o_, ListObj) and not o_.items and any(c in (not_(DATA), not_(Op("truthy", DATA)), compare("eq", Op("len", DATA), Const(0)))
+                                                                 for c in conds)
+    rep.check(il[0].data[1][2] == hf and tr[0].data[1][2] == sf and tr[0].data[1][1] == lines and returns_lines(r, []), "C17.R3.region-decoders",
               "ILOG region gets the header file, trace regions get the string file, all append to the returned list", where, "_format_*_data(...)",
               "header file / string file are swapped or results go to different lists")
     # ---- empty input: nothing at all
